@@ -304,6 +304,24 @@ def scaling(check, prog):
     it = Interp(prog, max_depth=1, opaque=[N + '.unscale_pars_from_minimizer'],
                 inline_new=False)
     res = it.analyze(q)
+    def own_methods(t):
+        # methods of the strategy called in t (by qualified name, or as an
+        # attribute of self)
+        out = []
+        for x in subterms(t):
+            if x[0] != 'call':
+                continue
+            if isinstance(x[1], str) and x[1].startswith(N + '.'):
+                out.append(x[1])
+            elif isinstance(x[1], tuple) and x[1][0] == 'attr' and \
+                    x[1][2] in prog.classes[N].methods:
+                base = x[1][1]
+                while base[0] == 'upd':
+                    base = base[1]
+                if base == sym('self'):
+                    out.append(N + '.' + x[1][2])
+        return [m_ for m_ in out if m_ != N + '.unscale_pars_from_minimizer']
+
     mp = [c for c in it.calls if c['name'].endswith('nmpfit.mpfit')]
     ok = bool(mp) and mp[0]['args'] and mp[0]['args'][0][0] == 'closure'
     if ok:
@@ -311,11 +329,62 @@ def scaling(check, prog):
         fr = Frame(cframe.module, cframe.owner, cframe.selfcls, cframe.selfname, 0, q)
         val = it.inline_closure(node_c, cenv, cframe, [sym('P')], {}, fr, ())
         ok = val[0] == 'list' and len(val[1]) == 2 and val[1][0] == num(0) and \
-            val[1][1][0] == 'call' and val[1][1][1] == sym('obj_func') and \
-            bool(calls_in(val[1][1][2][0], 'unscale_pars_from_minimizer'))
+            val[1][1][0] == 'call' and val[1][1][1] == sym('obj_func')
+        handed = val[1][1][2][0] if ok else None
+
+        def unscaled(t):
+            # through unscale_pars_from_minimizer, directly or inside a method of
+            # the strategy that the wrapper calls
+            if calls_in(t, 'unscale_pars_from_minimizer'):
+                return True
+            for qm in own_methods(t):
+                try:
+                    r2 = Interp(prog, max_depth=0).analyze(qm).ret
+                except AnalysisError:
+                    continue
+                if r2 is not None and calls_in(r2, 'unscale_pars_from_minimizer'):
+                    return True
+            return False
+        ok = ok and unscaled(handed)
     check.require(ok, 'L2-objective-sees-physical-values', 'NmpfitStrategy resid_wrapper',
                   'the objective is evaluated at unscaled (physical) parameter values',
                   loc)
+    # ... that lie inside the bounds the minimizer was given.  mpfit keeps the
+    # *scaled* value within the scaled limits; scale / unscale is x / s * s, exact
+    # only up to rounding, and one ulp beyond a bound the prior density is zero:
+    # the prior residual at the limit itself is infinite, every step onto the bound
+    # is rejected, and the fit stops short of it (or returns a value outside).
+    # Rule: what reaches the objective, and what minimize returns, has been
+    # clamped to the parameter's lower and upper bound.
+    def clamped(t):
+        for qm in own_methods(t):
+            try:
+                r2 = Interp(prog, max_depth=0).analyze(qm).ret
+            except AnalysisError:
+                continue
+            if r2 is not None and clamped(r2):
+                return True
+        names_ = {y[2] if y[0] == 'attr' else (y[2][1][1] if len(y[2]) > 1 and
+                                                 y[2][1][0] == 'const' else None)
+                  for x in subterms(t) if x[0] == 'call' and x[1] in (
+                      'min', 'max', 'numpy.clip', 'numpy.minimum', 'numpy.maximum')
+                  for y in subterms(x) if (y[0] == 'attr' and y[2] in (
+                      'lower_bound', 'upper_bound')) or (
+                      y[0] == 'call' and y[1] == 'getattr' and len(y[2]) >= 2)}
+        return {'lower_bound', 'upper_bound'} <= names_
+    q = N + '.minimize'
+    it2 = Interp(prog, max_depth=0, inline_new=False)
+    res2 = it2.analyze(q)
+    ret_ok = res2.ret is not None and res2.ret[0] == 'tuple' and clamped(res2.ret[1][0])
+    check.require(handed is not None and clamped(handed) and ret_ok,
+                  'L12-values-within-bounds', 'NmpfitStrategy.minimize',
+                  'the values given to the objective and the values returned are '
+                  'clamped to the priors\' bounds', loc,
+                  fail_detail='an unscaled value is used as it comes: '
+                  'Uniform(4.41, 6.71, 6.08).unscale(scale(6.71)) is 6.710000000000001, '
+                  'where lnprob is -inf -- the fit with that guess meets an infinite '
+                  'residual at its own bound (9 of 52 evaluations) and returns r '
+                  '0.0021 (6 sigma) away from the fit with guess 6.07')
     # scipy
     q = S + '.minimize'
     fd = prog.func(q)
@@ -428,10 +497,22 @@ def reusable(check, prog):
     # per-fit attributes are read only between create and delete
     reads_elsewhere = set()
     c = prog.classes[N]
+    # (methods fit() reaches, directly or through the methods it calls, run between
+    # creation and deletion of that state)
+    during = {'fit'}
+    work = ['fit']
+    while work:
+        mfd0 = c.methods.get(work.pop())
+        if mfd0 is None:
+            continue
+        sn0 = mfd0.args.args[0].arg if mfd0.args.args else None
+        for n in ast.walk(mfd0):
+            if isinstance(n, ast.Attribute) and isinstance(n.value, ast.Name) and \
+                    n.value.id == sn0 and n.attr in c.methods and n.attr not in during:
+                during.add(n.attr)
+                work.append(n.attr)
     for mname, mfd in c.methods.items():
-        if mname in ('initialize_fit', 'cleanup_from_fit', 'calc_residuals',
-                     'get_errors_from_minimizer', 'unscale_pars_from_minimizer',
-                     'minimize', 'fit'):
+        if mname in during:
             continue
         sn = mfd.args.args[0].arg if mfd.args.args else None
         for n in ast.walk(mfd):
